@@ -427,6 +427,14 @@ def run(ctx):
                           % (len(blocks), k, short(fk), cnt, why), loc_of(f, blocks[0]))
             continue
         if ob is not None:
+            # obligations are evaluated with private helpers that no rule names expanded in place (original block numbers are
+            # preserved by the expansion, so the site blocks stay valid)
+            from ..inline import expand
+            if not hasattr(P, "_expanded"):
+                P._expanded = {}
+            if f.key not in P._expanded:
+                P._expanded[f.key] = expand(P, f)
+            f = P._expanded[f.key]
             v = FnView.get(P, f)
             try:
                 good = bool(ob(ctx, f, v, set(blocks)))
